@@ -77,6 +77,15 @@ def _filedata_histories(p, data, want):
         qf = {**p, "conf": {**p["conf"], "large": 1 - p["conf"]["large"]}}
         eq(devs, "hist.file_flag_changed_through_header_then_setter.pack", bytes(z.pack()), M.ref_pdu(qf))
         eq(devs, "hist.file_flag_changed_through_header_then_setter.packet_len", z.packet_len, len(M.ref_pdu(qf)))
+    if p["offset"] < (1 << 32):
+        # the header's whole configuration object replaced (CRC and large-file flags differ), then the documented setter
+        z2 = P.FileDataPdu.unpack(want) if len(data) % 2 == 0 else M.build_pdu(p)
+        qc = {**p, "conf": {**p["conf"], "large": 1 - p["conf"]["large"], "crc": 1 - p["conf"]["crc"]}}
+        # (the replacement carries the direction a File Data PDU has; the constructor would have set it, a bare assignment does not)
+        z2.pdu_header.pdu_conf = M.build_conf({**qc["conf"], "dir": R.direction_of(qc)})
+        z2.file_data = data
+        eq(devs, "hist.configuration_object_replaced_through_header_then_setter.pack", bytes(z2.pack()), M.ref_pdu(qc))
+        eq(devs, "hist.configuration_object_replaced_through_header_then_setter.packet_len", z2.packet_len, len(M.ref_pdu(qc)))
     c_data = bytearray(data)
     meta = None
     c_meta = None
